@@ -10,6 +10,7 @@ import (
 	"github.com/mithrandie/csvq/lib/option"
 	"github.com/mithrandie/csvq/lib/parser"
 	"github.com/mithrandie/csvq/lib/value"
+	"github.com/mithrandie/csvq/lib/verifhook"
 
 	"github.com/mithrandie/ternary"
 )
@@ -134,6 +135,7 @@ func (view *View) group(ctx context.Context, scope *ReferenceScope, items []pars
 		}()
 
 		start, end := gm.RecordRange(thIdx)
+		verifhook.Worker("group", thIdx, gm.Number)
 		seqScope := scope.CreateScopeForSequentialEvaluation(view)
 		groups := make(map[string][]int, 20)
 		values := make([]value.Primary, len(items))
@@ -142,6 +144,9 @@ func (view *View) group(ctx context.Context, scope *ReferenceScope, items []pars
 		for i := start; i < end; i++ {
 			if gm.HasError() {
 				break GroupKeyLoop
+			}
+			if i&15 == 0 {
+				verifhook.Worker("group", thIdx, 0)
 			}
 			if i&15 == 0 && ctx.Err() != nil {
 				break GroupKeyLoop
